@@ -175,8 +175,8 @@ type Sim struct {
 	// FragMode: 0 deliver everything, 1 mixed, 2 byte-at-a-time heavy
 	FragMode int
 	// NoPreempt: keep running the goroutine released last while it is enabled
-	StickyPct int
-	lastActor string
+	StickyPct  int
+	lastActor  string
 	fragBudget int
 	// SeenActors maps every goroutine label ever seen parked to the step it was first seen at.
 	SeenActors map[string]int
